@@ -539,3 +539,37 @@ def c03(prop, tier, replay):
                 "stts/ctts encodings, sync subsets, placements; n <= %d) rendered to a file by the specification, plus seeded "
                 "random large table sets; distinct = distinct file bytes; non-trivial = at least 2 samples" % (3 if tier == "quick" else 4),
                 sum(1 for c in cases if c.get("n", 2) >= 2), {"distinct_files": distinct_files(cases), "exhaustive": True})
+
+
+def frag_cases(mcs, name, prop="C09"):
+    cases = []
+    for i, c in enumerate(mcs):
+        d = {"id": "%s-%d" % (name, i), "prop": prop, "file": c["file"], "expect_ok": True,
+             "info": {k: c[k] for k in ("delivery", "base", "durMode", "ctsMode", "tfdtV", "nfrag", "ntracks")}}
+        if c["delivery"] == "split":
+            d["init"] = c["init"]
+        cases.append(d)
+    return cases
+
+
+@check("C09")
+def c09(prop, tier, replay):
+    t0 = time.time()
+    rng = random.Random(seed())
+    wd = workdir(prop + "-" + tier)
+    known = load_known()
+    if replay:
+        cases = [json.load(open(replay))]
+        res = validate_sharded("Trace_Read", cases, wd, "replay", 1, runner="read-run")
+        report_read(prop, tier, res, cases, [], t0, known, "model_checking", "replay", 2)
+        return
+    st, mcs = gen_mc("MC_Frag", "MC_Frag_q" if tier == "quick" else "MC_Frag_t", wd, tier, need_actions=("Render",))
+    st2, mcs2 = gen_mc("MC_Frag", "MC_Frag_trex", wd, tier, need_actions=("Render",))
+    cases = frag_cases(mcs, "fr") + frag_cases(mcs2, "frtrex")
+    res = validate_sharded("Trace_Read", cases, wd, "frag", 6 if tier == "quick" else 16, runner="read-run")
+    report_read(prop, tier, res, cases, [st, st2], t0, known, "model_checking",
+                "fragmented movies: fragment structures (1-3 fragments, 1-2 tracks, empty runs, late tracks) x 5 base-offset modes x "
+                "3 duration modes x 3 composition-offset modes x 32/64-bit tfdt x movie-level defaults x 2 deliveries, rendered by the "
+                "specification; distinct = distinct file bytes; non-trivial = more than one fragment or track",
+                sum(1 for c in cases if c["info"]["nfrag"] > 1 or c["info"]["ntracks"] > 1),
+                {"distinct_files": distinct_files(cases), "exhaustive": True})
